@@ -46,11 +46,19 @@ type Case struct {
 	PreMat *MatSpec `json:"pre_mat,omitempty"`
 	PreR   string   `json:"pre_r,omitempty"`
 	PreQ   string   `json:"pre_q,omitempty"`
+	// ROff, QOff: location offsets given to the two sequences. The aligners work on letter positions
+	// counted from 0, so offsets change nothing.
+	ROff int `json:"r_offset,omitempty"`
+	QOff int `json:"q_offset,omitempty"`
 }
 
 // GenUsage draws the two usage dimensions above for a case whose other
 // fields are already drawn.
 func GenUsage(t *rapid.T, c *Case, pool string, genMat func(*rapid.T) MatSpec) {
+	if rapid.IntRange(0, 5).Draw(t, "sequence-offsets") == 3 {
+		c.ROff = rapid.SampledFrom([]int{1, 3, 17, 1000, -2}).Draw(t, "r-offset")
+		c.QOff = rapid.SampledFrom([]int{0, 1, 5, 40, -7}).Draw(t, "q-offset")
+	}
 	if rapid.IntRange(0, 4).Draw(t, "oversize-matrix") == 0 {
 		c.Oversize = rapid.IntRange(1, 3).Draw(t, "oversize")
 	}
@@ -87,6 +95,9 @@ func (c Case) UsageClasses() []string {
 	}
 	if c.PreMat != nil {
 		l = append(l, "matrix-object-reused-after-edit-in-place")
+	}
+	if c.ROff != 0 || c.QOff != 0 {
+		l = append(l, "sequences-with-location-offsets")
 	}
 	return l
 }
@@ -397,6 +408,7 @@ func BruteFittedAt(r, q []int, e int, s Scoring, adjacent bool) int {
 // Seqs builds the two library sequences of a case.
 func (c Case) Seqs() (align.AlphabetSlicer, align.AlphabetSlicer) {
 	a := Alpha(c.Alpha)
+	off := map[string]int{"r": c.ROff, "q": c.QOff}
 	mk := func(id, s string) align.AlphabetSlicer {
 		if c.QLetters {
 			// the two sequences carry different qualities at the same positions (and never the
@@ -409,9 +421,13 @@ func (c Case) Seqs() (align.AlphabetSlicer, align.AlphabetSlicer) {
 				}
 				ql[i] = alphabet.QLetter{L: alphabet.Letter(s[i]), Q: alphabet.Qphred(q)}
 			}
-			return linear.NewQSeq(id, ql, a, alphabet.Sanger)
+			qs := linear.NewQSeq(id, ql, a, alphabet.Sanger)
+			qs.Offset = off[id]
+			return qs
 		}
-		return linear.NewSeq(id, alphabet.BytesToLetters([]byte(s)), a)
+		ls := linear.NewSeq(id, alphabet.BytesToLetters([]byte(s)), a)
+		ls.Offset = off[id]
+		return ls
 	}
 	return mk("r", c.R), mk("q", c.Q)
 }
